@@ -17,9 +17,9 @@ ASSUMPTIONS = ['the database is modelled by symx.sqlmini: filter / order_by / fi
                'transaction_create: key lookup (_objects_by_key_id), change-key generation (get_keys) and the fee provider are stubs returning one fixed public key / change address / fee rate; the final signature_hash (txid) is skipped',
                'int(a * 1000.0 / b) is over-approximated by floor or floor + 1 (symx.lia.SFloatQ); no obligation depends on it',
                'amounts, fees and sizes are arbitrary integers in the stated ranges']
-BOUNDS = {'quick': 'select_inputs: every set of <= 3 UTXOs (value 0..21e14, confirmations 0..10, spent or not), amount 1..21e14, min_confirms 0..3, max_utxos in {None, 1, 2}; transaction_create: <= 2 UTXOs, one recipient, amount 1..21e14, explicit fee 0..10^9, max_utxos in {None, 1}, one change output; bumpfee: one input, one recipient and 0..5 change outputs, old fee >= 1, vsize 60..100000, fee / extra_fee 0..10^12',
+BOUNDS = {'quick': 'select_inputs: every set of <= 3 UTXOs (value 0..21e14, confirmations 0..10, spent or not), amount 1..21e14, min_confirms 0..3, max_utxos in {None, 1, 2}; transaction_create: <= 2 UTXOs, one recipient, amount 1..21e14, explicit fee 0..10^9, max_utxos in {None, 1}, one change output, inputs selected automatically or named explicitly; add_input_from_wallet: <= 2 candidate outputs (any index / value) against one already spent outpoint; send: every min_confirms 0..1000 / locktime / max_utxos / change setting x four estimate-vs-exact fee pairs; bumpfee: one input, one recipient and 0..5 change outputs, old fee >= 1, vsize 60..100000, fee / extra_fee 0..10^12',
           'thorough': 'select_inputs <= 4 UTXOs, transaction_create <= 3 UTXOs, bumpfee 0..7 change outputs'}
-OUTSIDE = 'automatic / named fees (provider estimate x size in float arithmetic), explicit input lists, several or random change outputs (numpy dirichlet), send / sweep, multisig and non-segwit wallets, the fee-rate limit checks themselves, WalletTransaction.bumpfee wrapper, that a sufficient UTXO set is always found (C07 does not demand it; see DESIGN.md)'
+OUTSIDE = 'automatic / named fees (provider estimate x size in float arithmetic), explicit Input objects, several or random change outputs (numpy dirichlet), send / sweep, multisig and non-segwit wallets, the fee-rate limit checks themselves, WalletTransaction.bumpfee wrapper, that a sufficient UTXO set is always found (C07 does not demand it; see DESIGN.md)'
 MAXV = 21 * 10 ** 14
 
 
@@ -215,7 +215,7 @@ class _ChangeKey:
         self.key_id, self.address = key_id, CHANGE_ADDR
 
 
-def h_create(ex, n):
+def h_create(ex, n, explicit=False):
     """Wallet.transaction_create([(recipient, amount)], fee=<explicit integer>) over every set of n UTXOs: on success
     inputs = outputs + reported fee, the fee is not negative and is at least the requested one, no output is negative,
     the recipient appears exactly once with the requested amount, every other output is a change output of this wallet,
@@ -246,7 +246,12 @@ def h_create(ex, n):
         total_avail = sum(u.value for u in utx if not u.spent and bool(u.transaction.confirmations >= 1) and bool(u.value >= 1000))
     try:
         try:
-            t = w.transaction_create([(RECIPIENT, amount)], fee=fee, max_utxos=max_utxos, number_of_change_outputs=1)
+            if explicit:
+                # the caller names the outputs to spend (all n of them); values are looked up in the database
+                arr = [(bytes([i + 1]) * 32, 0) for i in range(n)]
+                t = w.transaction_create([(RECIPIENT, amount)], input_arr=arr, fee=fee, number_of_change_outputs=1)
+            else:
+                t = w.transaction_create([(RECIPIENT, amount)], fee=fee, max_utxos=max_utxos, number_of_change_outputs=1)
         except WL.WalletError:
             return                      # refusing is always allowed by the statement (C07 demands refusal when funds are short)
         ins, outs = t.inputs, t.outputs
@@ -258,9 +263,13 @@ def h_create(ex, n):
         ex.check(len(rec) == 1 and rec[0].value == amount, 'recipient-once-with-exact-amount')
         others = [o for o in outs if o.address != RECIPIENT]
         ex.check(all(o.change and o.key_id is not None for o in others), 'other-outputs-are-change-of-this-wallet')
-        ex.check(tin <= total_avail, 'inputs-come-from-the-admissible-unspent-set')
         ex.check(len(set((bytes(i.prev_txid), int(i.output_n_int)) for i in ins)) == len(ins), 'inputs-are-distinct')
-        ex.check(amount + fee <= total_avail, 'insufficient-funds-are-refused')
+        if explicit:
+            ex.check(len(ins) == n, 'explicit-inputs-are-the-named-outputs')
+            ex.check(amount + fee <= tin, 'insufficient-funds-are-refused')
+        else:
+            ex.check(tin <= total_avail, 'inputs-come-from-the-admissible-unspent-set')
+            ex.check(amount + fee <= total_avail, 'insufficient-funds-are-refused')
     finally:
         if scratch:
             try:
@@ -268,6 +277,126 @@ def h_create(ex, n):
             except Exception:
                 pass
             __import__('shutil').rmtree(scratch, ignore_errors=True)
+
+
+class _In:
+    def __init__(self, txid, n, value):
+        self.prev_txid, self.output_n_int, self.value = txid, n, value
+        # (the 4-byte form of the index; for a symbolic index an opaque value that, like bytes, never equals an int)
+        self.output_n = n.to_bytes(4, 'big') if isinstance(n, int) else ('bytes-of', n)
+
+
+class _HW:
+    """stand-in for the wallet behind a WalletTransaction: utxos() returns the given list"""
+    multisig, multisig_n_required, sort_keys = False, 1, False
+
+    def __init__(self, utxos):
+        self._u = utxos
+
+    def utxos(self, *a, **k):
+        return list(self._u)
+
+    def _objects_by_key_id(self, key_id):
+        class K:
+            compressed, witness_type = True, 'segwit'
+        return [], K()
+
+
+def h_add_input_from_wallet(ex, n):
+    """WalletTransaction.add_input_from_wallet (used by the wallet-level bumpfee): the input it adds is an unspent
+    output of the wallet that the transaction does not spend already, worth at least the requested minimum"""
+    import bitcoinlib.wallets as WL
+    import bitcoinlib.transactions as T
+    T1, T2 = bytes([0x11]) * 32, bytes([0x22]) * 32
+    have_n = ex.lint('spent_output_n', 0, 2 ** 32 - 1)
+    have_n = int(have_n) if ex.concrete else have_n
+    amount_min = ex.lint('amount_min', 1, MAXV)
+    utx = []
+    for i in range(n):
+        tid = ex.choose('utxo%d_txid' % i, ['11' * 32, '22' * 32])
+        on, val = ex.lint('utxo%d_output_n' % i, 0, 2 ** 32 - 1), ex.lint('utxo%d_value' % i, 0, MAXV)
+        if ex.concrete:
+            on, val = int(on), int(val)
+        utx.append(dict(txid=tid, output_n=on, value=val, key_id=1, script_type='p2wpkh', address=UTXO_ADDR))
+    if ex.concrete:
+        amount_min = int(amount_min)
+    t = WL.WalletTransaction.__new__(WL.WalletTransaction)
+    t.hdwallet, t.account_id, t.network, t.witness_type, t.txid = _HW(utx), 0, WL.Network('bitcoin'), 'segwit', 'ab' * 32
+    t.inputs = [_In(T1, have_n, 5000)]
+    added = []
+    t.add_input = lambda txid, output_n, **kw: added.append((txid, output_n, kw.get('value')))
+    try:
+        t.add_input_from_wallet(amount_min=amount_min)
+    except T.TransactionError:
+        for u in utx:
+            ex.check(s_or(u['value'] < amount_min, s_and(u['txid'] == '11' * 32, u['output_n'] == have_n)), 'refused-only-without-an-unused-admissible-output')
+        return
+    ex.check(len(added) == 1, 'one-input-added')
+    txid, on, val = added[0]
+    ex.check(s_not(s_and(txid == '11' * 32, on == have_n)), 'added-input-is-not-already-spent-by-this-transaction')
+    ex.check(val >= amount_min, 'added-input-has-the-minimum-value')
+    ex.check(s_or(*[s_and(u['txid'] == txid, u['output_n'] == on, u['value'] == val) for u in utx]), 'added-input-is-an-unspent-output-of-the-wallet')
+
+
+class _FakeTx:
+    def __init__(self, fee, fee_exact):
+        self.fee, self._fx, self.fee_per_kb, self.change, self.vsize = fee, fee_exact, 2000, 5000, 141
+
+    def calculate_fee(self):
+        return self._fx
+
+    def sign(self, *a, **k):
+        pass
+
+    def raw(self):
+        return b'\x00' * 10
+
+    def calc_weight_units(self):
+        pass
+
+    def signature_hash(self):
+        return b'\x00' * 32
+
+    def send(self, *a, **k):
+        pass
+
+
+def h_send_forwards_request(ex):
+    """Wallet.send: every transaction_create call it makes - also the second one after a fee estimate that was more than
+    10% off - carries the caller's outputs, inputs, account, network, min_confirms, max_utxos, locktime and
+    change-output settings"""
+    import inspect
+    import bitcoinlib.wallets as WL
+    min_confirms = ex.lint('min_confirms', 0, 1000)
+    max_utxos = ex.choose('max_utxos', [None, 1, 7])
+    locktime = ex.lint('locktime', 0, 2 ** 32 - 1)
+    nchange = ex.choose('number_of_change_outputs', [0, 1, 3])
+    est, exact = ex.choose('estimate_vs_exact_fee', [(1000, 1000), (1000, 1050), (1000, 2000), (3000, 1500)])
+    if ex.concrete:
+        min_confirms, locktime = int(min_confirms), int(locktime)
+    w = WL.Wallet.__new__(WL.Wallet)
+    w.network = WL.Network('bitcoin')
+    real_sig = inspect.signature(WL.Wallet.transaction_create)
+    calls = []
+
+    def spy(*a, **k):
+        calls.append(real_sig.bind(w, *a, **k).arguments)
+        return _FakeTx(est, exact)
+    w.transaction_create = spy
+    outs = [(RECIPIENT, 12345)]
+    w.send(outs, input_key_id=5, account_id=2, network='bitcoin', min_confirms=min_confirms, max_utxos=max_utxos, locktime=locktime,
+           number_of_change_outputs=nchange, random_output_order=False, replace_by_fee=True)
+    recreate = abs((float(est) - float(exact)) / float(exact)) > 0.10
+    ex.check(len(calls) == (2 if recreate else 1), 'recreated-iff-estimate-more-than-10-percent-off')
+    want = dict(output_arr=outs, input_arr=None, input_key_id=5, account_id=2, network='bitcoin', min_confirms=min_confirms, max_utxos=max_utxos,
+                locktime=locktime, number_of_change_outputs=nchange, random_output_order=False, replace_by_fee=True)
+    for k, c in enumerate(calls):
+        sig = real_sig.bind(w, **{kk: vv for kk, vv in c.items() if kk != 'self'})
+        sig.apply_defaults()
+        got = sig.arguments
+        for name, v in want.items():
+            ex.check(got[name] == v if not isinstance(v, (list, type(None))) else (got[name] is v or got[name] == v), 'send-forwards-%s-to-every-create-call' % name.replace('_', '-'))
+        ex.check(got['fee'] is None if k == 0 else got['fee'] == exact, 'send-fee-argument')
 
 
 def wsetup(ex):
@@ -290,5 +419,8 @@ def jobs(tier):
          for n in ([0, 1, 2, 3, 4, 5] if q else [0, 1, 2, 3, 4, 5, 6, 7])]
     J += [Job('select_inputs_%dutxos' % n, h_select_inputs, W=8, setup=wsetup, params=dict(n=n), budget_s=3000)
           for n in ([1, 2, 3] if q else [1, 2, 3, 4])]
+    J += [Job('add_input_from_wallet_%dutxos' % n, h_add_input_from_wallet, W=8, setup=wsetup, params=dict(n=n)) for n in (1, 2)]
+    J.append(Job('send_forwards_request', h_send_forwards_request, W=8, setup=wsetup))
+    J += [Job('create_explicit_inputs_%d' % n, h_create, W=8, setup=wsetup, params=dict(n=n, explicit=True), budget_s=3000) for n in (1, 2)]
     J += [Job('create_%dutxos' % n, h_create, W=8, setup=wsetup, params=dict(n=n), budget_s=3000) for n in ([1, 2] if q else [1, 2, 3])]
     return J
